@@ -461,6 +461,9 @@ class Executor(Exec):
                     break
             if u is None and found is not None:
                 u = self._uses(f"{found[0]}.{name}")
+            if u is None and found is not None and self.fsrc.cls is not None and found[0] == self.fsrc.cls \
+                    and name.startswith("_") and len(found[1].body) <= 12:
+                u = "inline"  # small private helper of the class under verification (same subset rules apply)
             if u is None:
                 raise OutOfSubset(f"call of {recv}.{name} has no contract and is not marked inline")
             if u == "skip":
